@@ -263,7 +263,21 @@ impl Contract<CMsg, Empty> for Scripted {
         if !self.has_reply {
             bail!("reply not implemented for contract")
         }
-        let pl: ReplyPayload = serde_json::from_slice(msg.payload.as_slice()).map_err(|e| anyhow!("undecodable reply payload: {}", e))?;
+        let pl: ReplyPayload = match serde_json::from_slice(msg.payload.as_slice()) {
+            Ok(pl) => pl,
+            Err(e) => {
+                // the payload delivered is not the one any scripted sub-message carried: log the delivery under the
+                // node number 0 (no program has it) with the raw payload, so that the oracle sees it
+                #[allow(deprecated)]
+                let res = match &msg.result {
+                    SubMsgResult::Ok(r) => RRes::Ok(events_from_std(&r.events), r.data.clone().map(|b| b.to_vec())),
+                    SubMsgResult::Err(_) => RRes::Err,
+                };
+                let dummy = Prog { node: 0, acts: vec![], out: Output::Fail };
+                self.enter(Ep::Reply, &env, None, &dummy, Some((msg.id, msg.payload.to_vec(), res)));
+                bail!("undecodable reply payload: {}", e)
+            }
+        };
         #[allow(deprecated)]
         let (res, p) = match &msg.result {
             SubMsgResult::Ok(r) => (RRes::Ok(events_from_std(&r.events), r.data.clone().map(|b| b.to_vec())), &pl.on_ok),
